@@ -211,7 +211,7 @@ Qed.
 Definition st_ok (st : node) : bool :=
   match st with
   | Stmt _ (Binary _ _ _ _) | Stmt _ (Call _ _ _ _ _ _) | Stmt _ (Jz _ _ _) | Stmt _ (IfThen _ _ _ _) | Stmt _ (Jump _ _)
-  | Stmt _ (Repeat _ _ _ _ _ _ _ _ _) | Stmt _ (ExitRepeat _) => true
+  | Stmt _ (Repeat _ _ _ _ _ _ _ _ _) | Stmt _ (ExitRepeat _) | Stmt _ (SpAssign _ _ _ _) => true
   | _ => false
   end.
 (* not an unconditional jump *)
@@ -843,7 +843,8 @@ Qed.
 (* ---- condition_detect leaves converted lists alone ---- *)
 Definition quiet (st : node) : bool :=
   match st with
-  | Stmt _ (Binary _ _ _ _) | Stmt _ (Call _ _ _ _ _ _) | Stmt _ (IfThen _ _ _ _) | Stmt _ (Repeat _ _ _ _ _ _ _ _ _) | Stmt _ (ExitRepeat _) => true
+  | Stmt _ (Binary _ _ _ _) | Stmt _ (Call _ _ _ _ _ _) | Stmt _ (IfThen _ _ _ _) | Stmt _ (Repeat _ _ _ _ _ _ _ _ _) | Stmt _ (ExitRepeat _)
+  | Stmt _ (SpAssign _ _ _ _) => true
   | _ => false
   end.
 Definition if_stmt (st : node) : bool := match st with Stmt _ (IfThen _ _ _ _) => true | _ => false end.
